@@ -60,7 +60,9 @@ def run_tlc(spec_dir, module, cfg, env=None, workers=8, timeout=900, heap="6g", 
     tmpd = os.path.join(WORK, "tlc", "tmp-" + tag)
     shutil.rmtree(tmpd, ignore_errors=True)
     os.makedirs(tmpd, exist_ok=True)
-    cmd = ["timeout", str(timeout), "java", "-XX:+UseParallelGC", "-Xmx" + heap, "-Djava.io.tmpdir=" + tmpd, "-cp", TLA_CP,
+    # -Xss on the command line too: the launcher's main thread (initial states, POSTCONDITION) does not take its stack
+    # size from JAVA_TOOL_OPTIONS
+    cmd = ["timeout", str(timeout), "java", "-Xss1g", "-XX:+UseParallelGC", "-Xmx" + heap, "-Djava.io.tmpdir=" + tmpd, "-cp", TLA_CP,
            "-DTLA-Library=" + TLA_LIB, "tlc2.TLC", "-workers", str(workers),
            "-metadir", metadir, "-cleanup", "-noGenerateSpecTE"]
     if coverage:
